@@ -1120,6 +1120,8 @@ class PythonMPContext(object):
             return ctx._mpf_mag(x._mpf_)
         elif hasattr(x, "_mpc_"):
             r, i = x._mpc_
+            if r == fnan or i == fnan:
+                return ctx.nan
             if r == fzero:
                 return ctx._mpf_mag(i)
             if i == fzero:
